@@ -28,13 +28,29 @@ const (
 	tInt ptype = iota
 	tStr
 	tIface
+	tU64 // uint64 parameter, values above 2^53 that differ only in bits a float64 drops
+	tI64 // int64 parameter, values near 2^62
 )
 
-// dom[t] = the values a, b, c of parameter type t. Clause atoms only ever mention a and b.
-var dom = [3][3]interface{}{
+// dom[t] = the values a, b, c of parameter type t (as the caller passes them). Clause atoms only
+// ever mention a and b.
+var dom = [5][3]interface{}{
 	{1, 2, 3},
 	{"a", "b", "c"},
 	{1, "b", 3}, // interface{}: pairwise different under any notion of equality
+	{uint64(1) << 53, uint64(1)<<53 + 1, uint64(1)<<53 + 2},
+	{int64(1) << 62, int64(1)<<62 + 1, int64(1)<<62 + 2},
+}
+
+// atomDom[t] = how a and b are written in a condition: for the 64-bit types as plain int
+// literals (the natural way to write When(9007199254740993)), i.e. another numeric class than the
+// parameter's.
+var atomDom = [5][3]interface{}{
+	{1, 2, 3},
+	{"a", "b", "c"},
+	{1, "b", 3},
+	{1 << 53, 1<<53 + 1, 1<<53 + 2},
+	{1 << 62, 1<<62 + 1, 1<<62 + 2},
 }
 
 type sigSpec struct {
@@ -83,6 +99,12 @@ func sigs() []*sigSpec {
 		{"f3", []ptype{tIface, tInt}, -1, false,
 			func(b *mocker.Builder) mocker.ExportedMocker { return b.Func(c04t.F3) },
 			func(_ int, a []interface{}) int { return c04t.F3(a[0], a[1].(int)) }, callT{}},
+		{"u1", []ptype{tU64}, -1, false,
+			func(b *mocker.Builder) mocker.ExportedMocker { return b.Func(c04t.U1) },
+			func(_ int, a []interface{}) int { return c04t.U1(a[0].(uint64)) }, callT{}},
+		{"b1", []ptype{tI64}, -1, false,
+			func(b *mocker.Builder) mocker.ExportedMocker { return b.Func(c04t.B1) },
+			func(_ int, a []interface{}) int { return c04t.B1(a[0].(int64)) }, callT{}},
 		{"M", []ptype{tInt, tInt}, -1, true,
 			func(b *mocker.Builder) mocker.ExportedMocker { return b.Struct(&c04t.S{}).Method("M") },
 			func(r int, a []interface{}) int { return recvP[r].M(a[0].(int), a[1].(int)) }, callT{}},
@@ -195,7 +217,7 @@ type Case struct {
 }
 
 func (s *sigSpec) atom(at int, j int) interface{} {
-	d := dom[s.ptypeAt(j)]
+	d := atomDom[s.ptypeAt(j)]
 	switch at {
 	case aA:
 		return d[0]
